@@ -240,7 +240,8 @@ def step_inputs(ctx):
             if probs:
                 bad.append(f"[{tag}] solve #{k}: " + "; ".join(probs))
         if t.outcome[0] == "return" and sc["dynamic_epsilon"]:
-            res = [render(x) for x in t.outcome[1].parts[2]] if getattr(t.outcome[1], "parts", None) else []
+            from ..update_trace import result_fields
+            res = [render(x) for x in (result_fields(t.outcome[1]) or [])]
             if "eps_new" not in res:
                 bad.append(f"[{tag}] the epsilon of this step is not among the returned state ({res})")
     if n < 100:
